@@ -57,6 +57,98 @@ def case(boundary, fields, mem=102400, k=0, framing='cl', first='POST', chunks=N
                 chunks=chunks or [7], blk=blk, with_body=with_body)
 
 
+# ---------------------------------------------------------------- dev-only line coverage of the anchored code
+# VERIF_COVERAGE=1 ./check Cxx --no-coq   writes evidence/coverage_Cxx.json: executable lines of the anchored
+# functions reached / not reached by the cases of the run (AUDIT_BRIEF.md, step 1).
+COV_TARGETS = {
+    'ombott/request_pkg/multipart.py': ['FieldStorage', 'BytesIOProxy', 'Header'],
+    'ombott/request_pkg/body_mixin.py': ['BodyMixin.POST', 'BodyMixin.forms', 'BodyMixin.files'],
+    'ombott/request_pkg/helpers.py': ['FileUpload'],
+}
+
+
+class Coverage:
+    def __init__(self, pid, targets):
+        import atexit
+        import os
+        import sys
+        self.pid, self.hits, self.want = pid, set(), {}
+        self.repo = os.environ.get('VERIF_REPO', '/repo')
+        for rel, names in targets.items():
+            path = os.path.join(self.repo, rel)
+            src = open(path).read()
+            top = compile(src, path, 'exec')
+            lines = {}
+
+            def walk(code, qual):
+                for c in code.co_consts:
+                    if hasattr(c, 'co_code'):
+                        q = (qual + '.' if qual else '') + c.co_name
+                        if any(q == n or q.startswith(n + '.') for n in names):
+                            for _, _, ln in c.co_lines():
+                                if ln is not None and ln != c.co_firstlineno:
+                                    lines.setdefault(ln, q)
+                        walk(c, q)
+            walk(top, '')
+            self.want[path] = lines
+        self.files = set(self.want)
+        atexit.register(self.report)
+        self._sys = sys
+
+    def tracer(self, frame, event, arg):
+        if frame.f_code.co_filename not in self.files:
+            return None
+        fn = frame.f_code.co_filename
+
+        def local(frame, event, arg):
+            if event == 'line':
+                self.hits.add((fn, frame.f_lineno))
+            return local
+        self.hits.add((fn, frame.f_lineno))
+        return local
+
+    def run(self, f, *a):
+        old = self._sys.gettrace()
+        self._sys.settrace(self.tracer)
+        try:
+            return f(*a)
+        finally:
+            self._sys.settrace(old)
+
+    def report(self):
+        import json
+        import os
+        out, tot, hit = {}, 0, 0
+        for path, lines in self.want.items():
+            src = open(path).read().split('\n')
+            miss = []
+            for ln, q in sorted(lines.items()):
+                tot += 1
+                if (path, ln) in self.hits:
+                    hit += 1
+                else:
+                    miss.append('%d %s: %s' % (ln, q, src[ln - 1].strip()))
+            out[os.path.relpath(path, self.repo)] = miss
+        root = os.path.normpath(os.path.join(os.path.dirname(os.path.abspath(__file__)), '..', '..'))
+        with open(os.path.join(root, 'evidence', 'coverage_%s.json' % self.pid), 'w') as f:
+            json.dump(dict(property=self.pid, reached=hit, total=tot, unreached=out), f, indent=1)
+        print('coverage %s: %d/%d executable lines of the anchored functions reached' % (self.pid, hit, tot),
+              file=self._sys.stderr)
+
+
+_COV = None
+
+
+def covered(pid, targets, f, *a):
+    import os
+    global _COV
+    if os.environ.get('VERIF_COVERAGE') != '1':
+        return f(*a)
+    if _COV is None or _COV.pid != pid:
+        _COV = Coverage(pid, targets)
+    return _COV.run(f, *a)
+
+
 # ---------------------------------------------------------------- the browser-side encoder
 def header_block(f):
     h = b'Content-Disposition: form-data; name="' + u8(f['name']) + b'"'
@@ -254,6 +346,10 @@ def snap(d, k):
 
 
 def run_impl(case):
+    return covered(ID, COV_TARGETS, _run_impl, case)
+
+
+def _run_impl(case):
     from ombott import Ombott
     body = encode_form(bytes(case['boundary']), case['fields'])
     app = Ombott(dict(max_memfile_size=case['mem']))
